@@ -148,6 +148,18 @@ def propagate_oracle(ctx, case, steps, ctor_err):
         for a, v in exp.items():
             if have.get(a) != v:
                 ctx.fail(suites.slim(case), f'coarse node {k}: {a}={have.get(a)!r}, written {v!r}')
+    # every annotated template atom has a copy in every instance of its fragment
+    seen = set()
+    for n, d in fine.nodes(data=True):
+        for fname, tk in d.get('mapping', []):
+            for k in d.get('fragid', []):
+                seen.add((k, fname, str(tk)))
+    for k in meta.nodes:
+        fname = meta.nodes[k].get('fragname')
+        for tk in case['atom_expect'].get(fname, {}):
+            if (k, fname, tk) not in seen:
+                ctx.fail(suites.slim(case), f'coarse node {k}: no atom of the result is the copy of annotated template atom {fname}:{tk} '
+                                            f'({case["atom_expect"][fname][tk]})')
     for n, d in fine.nodes(data=True):
         for fname, tk in d.get('mapping', []):
             exp = case['atom_expect'].get(fname, {}).get(str(tk))
@@ -184,11 +196,11 @@ def anno_resolve_case(rng):
             entries.append('%s=%s' % free); exp[free[0]] = free[1]
         base += '[#%s]' % ';'.join(['U'] + entries)
         base_expect.append(exp)
-    atoms = []
     atom_expect = {}
     text = '[$]'
+    idx = 0
     for j, el in enumerate(['C', 'O', 'C']):
-        w = rng.choice([None, '0.5', '2'])
+        w = rng.choice([None, '0.5', '2', '0'])
         x = rng.choice([None, None, 'R', 'S']) if el == 'C' else None
         free = rng.choice([None, ('tag', 't%d' % j)])
         ent, exp = [], {'weight': 1}
@@ -198,10 +210,23 @@ def anno_resolve_case(rng):
             ent.append('x=' + x); exp['chiral'] = x
         if free:
             ent.append('%s=%s' % free); exp[free[0]] = free[1]
-        if ent and ent[0].startswith('x=') is False or ent:
-            pass
         text += '[%s]' % ';'.join([el] + ent) if ent else el
-        atom_expect[str(j)] = exp
+        atom_expect[str(idx)] = exp
+        idx += 1
+        if el == 'C' and rng.random() < 0.35:
+            # an explicitly written hydrogen with its own annotation (weight, free key, label in any mix)
+            hent, hexp = [], {'weight': 1, 'element': 'H'}
+            hw = rng.choice([None, None, '0.5', '0', '1.0'])
+            if hw is not None:
+                hent.append('w=' + hw); hexp['weight'] = float(hw)
+            if rng.random() < 0.6 or not hent:
+                hent.append('site=s%d' % j); hexp['site'] = 's%d' % j
+            if rng.random() < 0.2:
+                hent.append('x=R'); hexp['chiral'] = 'R'
+            rng.shuffle(hent)
+            text += '([H;%s])' % ';'.join(hent)
+            atom_expect[str(idx)] = hexp
+            idx += 1
     text += '[$]'
     return {'kind': 'anno-resolve', 's': '{' + base + '}.{#U=' + text + '}', 'base_expect': base_expect,
             'atom_expect': {'U': atom_expect}, 'all_atom': True}
